@@ -108,6 +108,8 @@ pub fn run(rec: &mut Recorder, w: &mut World, tier: &str, seed: u64) {
     let pats = all_pats(pseg, &lits, &names);
     let mut keys = all_keys(kseg, &["a", "b", "é", "ab", ""]);
     keys.push("/a?q=1".into()); keys.push("/a/b?x=/y".into()); keys.push("/é/a?é".into());
+    // the query starts at the FIRST question mark
+    keys.push("/a/b?x=1?y=2".into()); keys.push("/a?next=/b?z".into()); keys.push("/a/é?p?q".into()); keys.push("/b??".into());
     rec.notes.insert("patterns".into(), pats.len().into());
     rec.notes.insert("keys".into(), keys.len().into());
     rec.begin();
@@ -155,7 +157,7 @@ pub fn run(rec: &mut Recorder, w: &mut World, tier: &str, seed: u64) {
             for _ in 0..n { key.push('/'); key.push_str(match seg { Seg::Lit(x) if rng.below(8) != 0 => x.as_str(), _ => *rng.pick(&["a", "b", "é", "ab", ""]) }); }
         }
         if rng.below(6) == 0 { key.push_str("/a"); }
-        if rng.below(6) == 0 { key.push_str("?q=/b"); }
+        if rng.below(6) == 0 { key.push_str("?q=/b"); if rng.below(2) == 0 { key.push_str("?r=/a"); } }
         let want = seg_match(&pat, &key);
         let nq = key.split('?').next().unwrap().to_string();
         let want5 = seg_match(&pat, &nq);
